@@ -219,7 +219,8 @@ Inductive wr :=
 | WHdr (h : N) (x : hdr * cproof)
 | WPH (p : ph)
 | WPV (h r : N) (c : sparse_coll)
-| WPC (h r : N) (c : sparse_coll).
+| WPC (h r : N) (c : sparse_coll)
+| WReplay (x : hdr).
 
 (** View-manager events, in the order the kernel raises them (consumed by Model/MirrorMgr.v):
     a view was updated (Mark*ViewUpdated), the voting view was snapshotted as the nil-voted round,
@@ -704,18 +705,20 @@ Definition keys_for (s : kstate) (m : vmsg) : list N :=
 Record stores := mk_stores {
   sr_nhr : N * N * N * N;
   sr_hdrs : list (N * (hdr * cproof));
-  sr_rounds : list (N * N * rentry)
+  sr_rounds : list (N * N * rentry);
+  sr_replayed : list hdr
 }.
 
-Definition stores_of (s : kstate) : stores := mk_stores (st_nhr s) (st_hdrs s) (st_rounds s).
+Definition stores_of (s : kstate) : stores := mk_stores (st_nhr s) (st_hdrs s) (st_rounds s) (st_replayed s).
 
 Definition apply_wr (st : stores) (w : wr) : stores :=
   match w with
-  | WNhr x => mk_stores x (sr_hdrs st) (sr_rounds st)
-  | WHdr h x => mk_stores (sr_nhr st) (hstore_set (sr_hdrs st) h x) (sr_rounds st)
-  | WPH p => mk_stores (sr_nhr st) (sr_hdrs st) (rs_save_ph (sr_rounds st) p)
-  | WPV h r c => mk_stores (sr_nhr st) (sr_hdrs st) (rs_overwrite_pv (sr_rounds st) h r c)
-  | WPC h r c => mk_stores (sr_nhr st) (sr_hdrs st) (rs_overwrite_pc (sr_rounds st) h r c)
+  | WNhr x => mk_stores x (sr_hdrs st) (sr_rounds st) (sr_replayed st)
+  | WHdr h x => mk_stores (sr_nhr st) (hstore_set (sr_hdrs st) h x) (sr_rounds st) (sr_replayed st)
+  | WPH p => mk_stores (sr_nhr st) (sr_hdrs st) (rs_save_ph (sr_rounds st) p) (sr_replayed st)
+  | WPV h r c => mk_stores (sr_nhr st) (sr_hdrs st) (rs_overwrite_pv (sr_rounds st) h r c) (sr_replayed st)
+  | WPC h r c => mk_stores (sr_nhr st) (sr_hdrs st) (rs_overwrite_pc (sr_rounds st) h r c) (sr_replayed st)
+  | WReplay x => mk_stores (sr_nhr st) (sr_hdrs st) (sr_rounds st) (sr_replayed st ++ [x])
   end.
 
 (** SparseSignatureCollection.ToFull*ProofMap: panics (BUG) on an empty signature list or on a
@@ -744,6 +747,31 @@ Definition to_full_map (kind h r : N) (keys : list N) (c : option sparse_coll) :
   end.
 
 (** loadInitialView *)
+(** LoadRoundState also returns, as bare proposed headers, the replayed headers of that height
+    whose hash has a precommit entry in the round. *)
+Definition fake_ph (x : hdr) (r : N) : ph := mk_ph x r None (SJunk 0) [].
+
+Definition round_phs (rs : list (N * N * rentry)) (replayed : list hdr) (h r : N) : list ph :=
+  let e := rs_entry rs h r in
+  re_phs e ++
+  match re_pc e with
+  | Some (_, entries) =>
+      flat_map (fun en => match fst en with
+                          | [] => []
+                          | _ => map (fun x => fake_ph x 0)
+                                     (filter (fun x => (hd_height x =? h) && bytes_eqb (hd_hash x) (fst en)) replayed)
+                          end) entries
+  | None => []
+  end.
+
+Definition load_initial_view_r (rs : list (N * N * rentry)) (replayed : list hdr) (h r : N) (vs : valset) : res view :=
+  let e := rs_entry rs h r in
+  bind (to_full_map KPrevote h r (vs_keys vs) (re_pv e)) (fun pv =>
+  bind (to_full_map KPrecommit h r (vs_keys vs) (re_pc e)) (fun pc =>
+  let sm0 := mk_sum (sum_pows (vs_pows vs)) 0 0 [] [] [] [] in
+  let sm := sum_set_precommits (sum_set_prevotes sm0 (vs_pows vs) pv) (vs_pows vs) pc in
+  Ok (mk_view h r vs (round_phs rs replayed h r) pv pc empty_cproof sm 0))).
+
 Definition load_initial_view (rs : list (N * N * rentry)) (h r : N) (vs : valset) : res view :=
   let e := rs_entry rs h r in
   bind (to_full_map KPrevote h r (vs_keys vs) (re_pv e)) (fun pv =>
@@ -793,7 +821,7 @@ Definition restart (ih : N) (ivs : valset) (st : stores) (vals : list (bytes * l
                   | Some (x, _) => Ok (hd_next x)
                   | None => Panic "loadInitialCommittingView: committed header below the committing height is missing"
                   end) (fun vs =>
-       bind (load_initial_view (sr_rounds st) ch cr vs) (fun v0 =>
+       bind (load_initial_view_r (sr_rounds st) (sr_replayed st) ch cr vs) (fun v0 =>
        match v_pc v0 with
        | [] => Panic "loadInitialCommittingView: BUG: loading commit view from disk without any precommits"
        | _ =>
@@ -819,28 +847,84 @@ Definition restart (ih : N) (ivs : valset) (st : stores) (vals : list (bytes * l
                          end
              | None => Panic "loadInitialVotingView: BUG: no validators available"
              end) (fun vs =>
-  bind (load_initial_view (sr_rounds st) vh vr vs) (fun vot0 =>
-  bind (load_initial_view (sr_rounds st) vh (wrap32 (vr + 1)) vs) (fun nxt0 =>
+  bind (load_initial_view_r (sr_rounds st) (sr_replayed st) vh vr vs) (fun vot0 =>
+  bind (load_initial_view_r (sr_rounds st) (sr_replayed st) vh (wrap32 (vr + 1)) vs) (fun nxt0 =>
   let vot := bump (with_pcp vot0 committing_proof) in
   let nxt := bump (with_pcp nxt0 committing_proof) in
   (* the managers take their copies when the views are loaded, BEFORE the previous commit proofs
      are attached to the views (kernel.go: Mark*ViewUpdated precedes the PrevCommitProof assignment) *)
   let evs := (match chdr with Some _ => [EvMark ViewIDCommitting (with_pcp com empty_cproof)] | None => [] end)
              ++ [EvMark ViewIDVoting (bump vot0); EvMark ViewIDNextRound (bump nxt0)] in
-  let s0 := mk_k ih ivs com vot nxt chdr (if uninit then (ih, 0, 0, 0) else sr_nhr st) (sr_hdrs st) (sr_rounds st) [] vals log1 evs in
+  let s0 := mk_k ih ivs com vot nxt chdr (if uninit then (ih, 0, 0, 0) else sr_nhr st) (sr_hdrs st) (sr_rounds st) (sr_replayed st) vals log1 evs in
   bind (recheck_view_shifts s0) (fun s1 => Ok (update_observers s1)))))).
+
+(** * Replayed headers (handleReplayedHeader); result 0 = accepted, 1 = out of sync,
+    2 = validation error.  An internal error makes the kernel main loop panic. *)
+Fixpoint jump_until (fuel : nat) (s : kstate) (r : N) : kstate :=
+  match fuel with
+  | O => s
+  | S f => if v_r (k_vot s) <? r then jump_until f (jump_voting_round s) r else s
+  end.
+
+Definition chdr_hash (s : kstate) : bytes := match k_chdr s with Some c => hd_hash c | None => [] end.
+
+Definition handle_replay (s0 : kstate) (hd : hdr) (cp : cproof) : res (kstate * N) :=
+  if negb (hd_height hd =? v_h (k_vot s0)) then Ok (s0, 1)
+  else if cp_round cp <? v_r (k_vot s0) then Panic "handleReplayedHeader: TODO: handle replay for earlier round"
+  else
+  let s := jump_until (N.to_nat (cp_round cp - v_r (k_vot s0))) s0 (cp_round cp) in
+  let h := hd_height hd in let r := cp_round cp in
+  (* the Go loop ends exactly at the replayed round and a round jump keeps the height; the model's
+     fuel is enough for that in every reachable state (Proofs/MirrorChain.v: replay_reaches_round) *)
+  if negb ((v_r (k_vot s) =? r) && (v_h (k_vot s) =? h)) then Panic "model: out of fuel in the replay round jump" else
+  if negb (hd_ok hd) then Ok (s, 2)
+  else if negb (h =? k_init_h s) && negb (bytes_eqb (hd_prev hd) (chdr_hash s)) then Ok (s, 2)
+  else if negb (valset_equal (hd_vals hd) (v_vals (k_vot s)) && vs_ok (hd_vals hd)) then Ok (s, 2)
+  else if negb (vs_ok (hd_next hd)) then Ok (s, 2)
+  else
+  let '(temp, allv) :=
+    fold_left (fun acc e =>
+      let '(tm, av) := acc in
+      let base := match pm_get (v_pc (k_vot s)) (fst e) with Some p => p | None => [] end in
+      let '(p', a, _) := merge_sparse KPrecommit h r (fst e) (vs_keys (hd_vals hd)) base (snd e) in
+      (pm_set tm (fst e) p', av && a)) (cp_proofs cp) ([], true) in
+  if negb allv then Ok (s, 2) else
+  bind
+    (if existsb (fun p => bytes_eqb (hd_hash (ph_hdr p)) (hd_hash hd)) (v_phs (k_vot s)) then Ok s
+     else if existsb (fun x => let '(h', _, e) := x in
+                               (h' =? h) && existsb (fun p => bytes_eqb (hd_hash (ph_hdr p)) (hd_hash hd)) (re_phs e))
+                     (st_rounds s)
+     then Panic "mainLoop: TODO: handle internal error from handling replayed block (round store refused the replayed header)"
+     else
+       let s1 := log_w (set_replayed s (st_replayed s ++ [hd])) (WReplay hd) in
+       Ok (set_vot s1 (with_phs (k_vot s1) (v_phs (k_vot s1) ++ [fake_ph hd r])))) (fun s1 =>
+  match pm_get temp (hd_hash hd) with
+  | None => Ok (s1, 2)
+  | Some hp =>
+      bind (byz_majority (sm_avail (v_sum (k_vot s1)))) (fun maj =>
+      if proof_power (vs_pows (hd_vals hd)) hp <? maj then Ok (s1, 2) else
+      let v := k_vot s1 in
+      let pc' := fold_left (fun m e => pm_set m (fst e) (snd e)) temp (v_pc v) in
+      let v1 := with_pc v pc' in
+      let v2 := with_sum v1 (sum_set_precommits (v_sum v1) (vs_pows (v_vals v1)) pc') in
+      let coll := map_to_sparse (vs_pkh (v_vals v2)) pc' in
+      let s2 := log_w (set_rounds (set_vot s1 v2) (rs_overwrite_pc (st_rounds s1) h r coll)) (WPC h r coll) in
+      bind (check_voting_precommit_shift s2) (fun s3 => Ok (s3, 0)))
+  end).
 
 (** * Operations and runs *)
 Inductive op :=
 | OpPH (p : ph)
 | OpPrevote (m : vmsg)
-| OpPrecommit (m : vmsg).
+| OpPrecommit (m : vmsg)
+| OpReplay (x : hdr) (cp : cproof).
 
 Definition step (s : kstate) (o : op) : res (kstate * N) :=
   match o with
   | OpPH p => handle_ph s p
   | OpPrevote m => handle_votes KPrevote s m
   | OpPrecommit m => handle_votes KPrecommit s m
+  | OpReplay x cp => handle_replay s x cp
   end.
 
 (** An operation with a crash: only the first [k] store writes of the operation land, then the
